@@ -150,7 +150,7 @@ fn absorb_line(agg: &Mutex<Agg>, line: &str) {
 }
 
 /// runs one chunk; in trace mode tracks the case in flight and enforces the per-case watchdog
-fn run_chunk(ctx: &Ctx, agg: &Arc<Mutex<Agg>>, slot: usize, from: u64, to: u64, trace: bool) -> ChunkEnd {
+fn run_chunk(ctx: &Ctx, agg: &Arc<Mutex<Agg>>, slot: usize, from: u64, to: u64, trace: bool, case_timeout_s: u64) -> ChunkEnd {
     let mut extra = vec!["--from".to_string(), from.to_string(), "--to".to_string(), to.to_string()];
     if trace {
         extra.push("--trace".into());
@@ -193,7 +193,7 @@ fn run_chunk(ctx: &Ctx, agg: &Arc<Mutex<Agg>>, slot: usize, from: u64, to: u64, 
         }
     });
     let n = to - from;
-    let chunk_deadline = Instant::now() + Duration::from_secs(ctx.plan.case_timeout_s.saturating_mul(n.min(40)).max(120));
+    let chunk_deadline = Instant::now() + Duration::from_secs(case_timeout_s.saturating_mul(n.min(40)).max(120));
     let end;
     loop {
         match child.try_wait() {
@@ -221,7 +221,7 @@ fn run_chunk(ctx: &Ctx, agg: &Arc<Mutex<Agg>>, slot: usize, from: u64, to: u64, 
             }
         }
         let timed_out = if trace {
-            last_event.lock().unwrap().elapsed() > Duration::from_secs(ctx.plan.case_timeout_s)
+            last_event.lock().unwrap().elapsed() > Duration::from_secs(case_timeout_s)
         } else {
             Instant::now() > chunk_deadline
         };
@@ -252,12 +252,12 @@ fn dump_case(ctx: &Ctx, slot: usize, k: u64) -> Value {
 }
 
 /// handle one chunk completely: fast run, on trouble re-run traced and attribute
-fn process_chunk(ctx: &Ctx, agg: &Arc<Mutex<Agg>>, slot: usize, from: u64, to: u64, always_trace: bool) {
+fn process_chunk(ctx: &Ctx, agg: &Arc<Mutex<Agg>>, slot: usize, from: u64, to: u64, always_trace: bool, case_timeout_s: u64) {
     if !always_trace {
         // fast mode collects into a private aggregate so that a failed chunk
         // can be re-run without double counting
         let private = Arc::new(Mutex::new(Agg::default()));
-        match run_chunk(ctx, &private, slot, from, to, false) {
+        match run_chunk(ctx, &private, slot, from, to, false, case_timeout_s) {
             ChunkEnd::Completed => {
                 merge(agg, private);
                 return;
@@ -276,7 +276,7 @@ fn process_chunk(ctx: &Ctx, agg: &Arc<Mutex<Agg>>, slot: usize, from: u64, to: u
                 .push(format!("chunk {from}..{to}: too many worker deaths"));
             return;
         }
-        match run_chunk(ctx, agg, slot, start, to, true) {
+        match run_chunk(ctx, agg, slot, start, to, true, case_timeout_s) {
             ChunkEnd::Completed => return,
             ChunkEnd::Died { k: Some(k), how } => {
                 let case = dump_case(ctx, slot, k);
@@ -309,7 +309,7 @@ fn process_chunk(ctx: &Ctx, agg: &Arc<Mutex<Agg>>, slot: usize, from: u64, to: u
                 a.evaluations += k + 1 - start;
                 a.inconclusive += 1;
                 a.inconclusive_reasons
-                    .push(format!("case {k}: watchdog ({} s)", ctx.plan.case_timeout_s));
+                    .push(format!("case {k}: watchdog ({case_timeout_s} s)"));
                 start = k + 1;
             }
             ChunkEnd::TimedOut { k: None } => {
@@ -507,17 +507,19 @@ pub fn check(m: Arc<dyn DynMonitor>, tier: Tier, seed: u64, scrut_bin: PathBuf) 
     }
 
     // 2. generated workload
-    let chunks: Vec<(u64, u64)> = {
+    // (from, to, always_trace, case_timeout_s)
+    let chunks: Vec<(u64, u64, bool, u64)> = {
         let mut v = vec![];
-        let mut a = 0;
-        while a < plan.cases {
-            let b = (a + plan.chunk).min(plan.cases);
-            v.push((a, b));
-            a = b;
+        for seg in m.segments(tier) {
+            let mut a = seg.from;
+            while a < seg.to {
+                let b = (a + seg.chunk.max(1)).min(seg.to);
+                v.push((a, b, seg.chunk <= 4, seg.case_timeout_s));
+                a = b;
+            }
         }
         v
     };
-    let always_trace = plan.chunk <= 4;
     let next = Arc::new(AtomicU64::new(0));
     let chunks = Arc::new(chunks);
     let mut handles = vec![];
@@ -534,8 +536,8 @@ pub fn check(m: Arc<dyn DynMonitor>, tier: Tier, seed: u64, scrut_bin: PathBuf) 
             if agg.lock().unwrap().violations.len() >= MAX_VIOLATION_SIGS {
                 break;
             }
-            let (a, b) = chunks[i];
-            process_chunk(&ctx, &agg, slot, a, b, always_trace);
+            let (a, b, always_trace, case_timeout_s) = chunks[i];
+            process_chunk(&ctx, &agg, slot, a, b, always_trace, case_timeout_s);
         }));
     }
     for h in handles {
